@@ -95,7 +95,7 @@ def check(prop, tier, replay=None):
     # statements combined in ways no fixture does (several allocate lines, scenario-specific duration, an undefined macro where
     # a date belongs, header units, astronomic values, ...)
     for kind, text in gen.odd_inputs():
-        jobs.append({"id": "C11-odd-%s" % kind, "text": text, "scenarios": [0]})
+        jobs.append({"id": "C11-odd-%s" % kind, "text": text, "scenarios": [0], "must_reject": kind in gen.ODD_MUST_REJECT})
     seeds = []
     for name in ("dags", "limits_profile", "calendars", "teams_alts"):
         seeds += [("gen-" + pid, p.render()) for pid, p in getattr(gen, name)(rng, 3 if tier == "quick" else 25)]
@@ -157,7 +157,7 @@ def check(prop, tier, replay=None):
                          "nevents": len(r.get("events", [])) if r["status"] != "rejected" else int(r.get("nevents", 0)),
                          "wall_ms": int(r.get("wall", 0) * 1000), "limit_ms": scaled_bound_ms(r, job, wall_of),
                          "leafs": len(leafs), "sched": sched, "warned": bool(r.get("warns")), "inHorizon": in_h,
-                         "mustReject": gen.cannot_be_grammatical(job["text"])})
+                         "mustReject": gen.cannot_be_grammatical(job["text"]) or bool(job.get("must_reject"))})
         verdicts, res = decide_outcomes(rows)
         run.add_tlc(res)
         classes = {}
